@@ -1,4 +1,5 @@
 import Amqp.Lemmas.Publish
+import Amqp.Gen.Skel
 /-!
 # C04 — published payloads are framed exactly and within the negotiated frame size
 
@@ -117,5 +118,23 @@ example : splitBody 12 [1, 2, 3, 4, 5, 6, 7, 8] = [[1, 2, 3, 4], [5, 6, 7, 8]] :
 example : negotiatedFrameMax 0 = 131072 ∧ negotiatedFrameMax 4096 = 4096 ∧
     negotiatedFrameMax 1000000 = 131072 := by decide
 example : channelMaxF 4096 = 4096 ∧ maxBody 4096 = 4088 := by decide
+
+/-! ## The framing reaches the wire intact also next to other writers
+
+`publish_shape` / `wire_bound` are about the frames handed to `Connection.write_frames`.  That they
+arrive at the broker contiguously is C01's theorem (`call_frames_contiguous`), which rests on two
+regenerated facts repeated here as obligations of this property: all frames of the call are marshalled
+into one buffer, and `write_to_socket` sends a buffer under a single hold of the write lock, looping
+over partial sends inside it. -/
+theorem skel_IO_write_to_socket : Gen.Skel.IO_write_to_socket =
+  ["acq:_wr_lock", "try", "while", "do", "try", "r:socket", "if", "then", "raise:socket.error",
+    "endif", "call:sock.send", "if", "then", "raise:socket.error", "endif",
+    "except:socket.timeout", "except:socket.error", "if", "then", "continue", "endif",
+    "r:_exceptions", "call:_exceptions.append", "return", "endtry", "endwhile", "finally",
+    "rel:_wr_lock", "endtry"] := by decide
+
+theorem skel_Connection_write_frames : Gen.Skel.Connection_write_frames =
+  ["for", "do", "call:pamqp_frame.marshal", "endfor", "call:heartbeat.register_write", "r:_io",
+    "call:_io.write_to_socket"] := by decide
 
 end Amqp.C04
